@@ -17,23 +17,23 @@ Proof. exact new_id_spec. Qed.
 Theorem C09_agree_init : forall k, Agree k init_sdk (init_ctrl k) /\ Inv k init_sdk (init_ctrl k).
 Proof. exact agree_init. Qed.
 
-Theorem C09_agree_step : forall k s c o, Inv k s c -> in_budget k s o = true -> outside_findings k s o = true ->
+Theorem C09_agree_step : forall k s c o, Inv k s c -> in_budget k s o = true ->
   match o with
   | Flush => exists c', exec_events c (all_pending s) = (c', all_pending s, None) /\
                         Agree k s c' /\ Inv k (after_flush s) c'
-  | _ => (forall e, sdk_step k s o = inr e -> e = ErrReject) /\
+  | _ => (forall e, sdk_step k s o <> inr e) /\
          (forall s', sdk_step k s o = inl s' -> Inv k s' c /\ NoDup (ids s') /\ length (ids s') <= budget k)
   end.
 Proof. exact agree_step. Qed.
 
 (* every observation of any program of any length: at every flush no fault and
    Permutation ids allocated /\ NoDup ids /\ |ids| <= budget; after every other
-   operation NoDup ids /\ |ids| <= budget *)
-Theorem C09_agree_reachable : forall k ops, within_budget k ops -> avoids_findings k ops ->
+   operation NoDup ids /\ |ids| <= budget; no operation is refused by the SDK *)
+Theorem C09_agree_reachable : forall k ops, within_budget k ops ->
   Forall (good_obs k) (run0 k ops).
 Proof. exact agree_reachable. Qed.
 
-Theorem C09_no_alloc_fault : forall k ops, within_budget k ops -> avoids_findings k ops ->
+Theorem C09_no_alloc_fault : forall k ops, within_budget k ops ->
   has_fault (run0 k ops) = false.
 Proof. exact no_alloc_fault_b. Qed.
 
@@ -48,21 +48,29 @@ Theorem C09_nv_relocation_frees_id0 : forall k s c, Good k s c -> nv k = true ->
     (forall h v, id_of h (active s) = Some v -> v <> 0 -> id_of h (active s') = Some v).
 Proof. exact nv_relocation_frees_id0. Qed.
 
-(* The statement at full strength has no `avoids_findings` hypothesis.  The model of
-   the current code refutes it on one input class (a recorded finding); the check
-   replays the witness on the implementation on every run. *)
-Definition no_alloc_fault_unrestricted : Prop :=
-  forall k ops, within_budget k ops -> has_fault (run0 k ops) = false.
-
-(* C09:nv-transpiler-carbon-gate-borrows-unallocated-electron *)
+(* Both theorems above are the statements at full strength: the only hypothesis is
+   `within_budget` (the host keeps at most budget(cfg) qubits alive, addresses live handles,
+   lets a block keep its qubit only where that is possible, and does not ask for several
+   sequential pairs without a post routine).  The input classes on which earlier versions of
+   the code failed are repaired; their witnesses are instances of the theorem (and corpus
+   entries of the check).  E.g. the carbon-carbon gate under the NV transpiler while no
+   qubit has ID 0: the builder now reserves the electron around it. *)
 Definition witness_carbon_gate : cfg * list op :=
   (mkCfg 4 true true, [NewQubit; NewQubit; NewQubit; MeasureDestructive 1; Gate2 2 0; Flush]).
-Theorem C09_no_alloc_fault_unrestricted_refuted_carbon_gate :
-  exists k ops, within_budget k ops /\ has_fault (run0 k ops) = true.
-Proof. exists (fst witness_carbon_gate), (snd witness_carbon_gate). vm_compute. split; reflexivity. Qed.
+Example C09_former_finding_carbon_gate :
+  within_budget (fst witness_carbon_gate) (snd witness_carbon_gate) /\
+  has_fault (run0 (fst witness_carbon_gate) (snd witness_carbon_gate)) = false.
+Proof. vm_compute. split; reflexivity. Qed.
+(* NV: a two-pair keep while another qubit is alive (formerly refused by an assertion) *)
+Example C09_former_refusal_nv_keep :
+  let k := mkCfg 4 true false in
+  let ops := [NewQubit; EprKeep 2 true false [true; false]; Flush] in
+  within_budget k ops /\ has_fault (run0 k ops) = false /\
+  option_map ids (sdk_after k init_sdk ops) = Some [1; 2; 0].
+Proof. vm_compute. repeat split; reflexivity. Qed.
 
 (* non-vacuity: a program on four-qubit NV hardware with the transpiler that stays in
-   budget and outside the recorded classes, with a flushed qubit relocated by a
+   budget, with a flushed qubit relocated by a
    measurement, a two-pair keep, a carbon-carbon gate while ID 0 is occupied, a
    keep whose post routine frees (not sequential), Bell states other than Phi+, a two-pair EPR context, a
    context that keeps its pair, three flushes; the hypotheses hold and so does the conclusion, by computation *)
@@ -73,7 +81,6 @@ Definition example_prog : list op :=
 Example C09_nonvacuous :
   let k := mkCfg 4 true true in
   always in_budget k init_sdk example_prog = true /\
-  always outside_findings k init_sdk example_prog = true /\
   has_fault (run0 k example_prog) = false /\
   List.length (run0 k example_prog) = 13 /\
   option_map ids (sdk_after k init_sdk example_prog) = Some [2; 0].
@@ -101,4 +108,3 @@ Print Assumptions C09_agree_reachable.
 Print Assumptions C09_no_alloc_fault.
 Print Assumptions C09_ids_reused.
 Print Assumptions C09_nv_relocation_frees_id0.
-Print Assumptions C09_no_alloc_fault_unrestricted_refuted_carbon_gate.
